@@ -80,9 +80,9 @@ def run(tier, seed):
     rng = random.Random(seed * 7919 + 4)
     quick = tier != 'thorough'
     pinned(chk)
-    items, asts = c01.gen_items(rng, 100 if quick else 1000, FEATURES)
+    items, asts = c01.gen_items(rng, 100 if quick else 300, FEATURES)
     # loops that may be able to go round without consuming: the compiler must reject those that can
-    for i in range(120 if quick else 1200):
+    for i in range(120 if quick else 360):
         sd = rng.randrange(1 << 30)
         ast, src, uy = genprog.gen_zp_program(sd)
         items.append(('zp:%d' % sd, src, [rng.choice(['-O0', '-O1', '-O3'])] + (['-fyield-support'] if uy else [])))
